@@ -714,7 +714,7 @@ def judge(chk, cases, impl, variant):
             st2, path = cmp_obs(ent['obs'], mob)
             if st2 == 1:
                 rounded = True
-            if st2 == 2 and k == 'same_scaling' and rounded and ent['obs'][0] == 0 and isinstance(mob, list) and mob[:1] == [0]:
+            if st2 == 2 and k == 'same_scaling' and rounded:
                 # equality of attributes that carry float rounding (exact in the model): not decidable by the exact model
                 chk.count('ambiguous:same_scaling-on-rounded-values')
                 continue
